@@ -107,7 +107,8 @@ def check_results(ctx, cirq, cg, n):
 def rand_arg(rng, sympy, symbolic_ok=True):
     r = rng.random()
     if symbolic_ok and r < 0.2:
-        return rng.choice([sympy.Symbol('a'), sympy.Symbol('b'), 2 * sympy.Symbol('a'), sympy.Symbol('a') + 0.5, sympy.Symbol('a') * sympy.Symbol('b')])
+        a_, b_ = sympy.Symbol('a'), sympy.Symbol('b')
+        return rng.choice([a_, b_, 2 * a_, a_ + 0.5, a_ * b_, a_**2, a_**b_, 1 / a_, a_ / b_, sympy.sqrt(a_), (a_ + 1) ** 2, 2**a_, b_**a_, a_ - b_, -a_])
     return gen.rand_exponent(rng)
 
 
@@ -143,7 +144,7 @@ def rand_program(cirq, cg, sympy, rng, depth=0):
         elif k == 9:
             op = cirq.HPowGate(exponent=e).on(q[0])
         elif k == 10:
-            op = cirq.I(q[0])
+            op = cirq.I(q[0]) if rng.random() < 0.5 else cirq.depolarize(rng.choice([0.0, 0.1, 0.25, 1.0 / 3])).on(q[0])
         elif k == 11:
             nm = min(rng.randint(1, 3), len(grid))
             t = rng.sample(grid, nm)
@@ -163,7 +164,11 @@ def rand_program(cirq, cg, sympy, rng, depth=0):
         elif k == 17:
             op = cg.InternalGate(gate_name='G', gate_module='mod', num_qubits=1, x=rng.choice([1, 0.5, 'q', True])).on(q[0])
         elif k == 18 and keys:
-            op = cirq.X(q[0]).with_classical_controls(rng.choice(keys))
+            if rng.random() < 0.5:
+                op = cirq.X(q[0]).with_classical_controls(rng.choice(keys))
+            else:
+                op = cirq.X(q[0]).with_classical_controls(cirq.BitMaskKeyCondition(rng.choice(keys), index=-1, target_value=rng.choice([1, 2, 3, 2**24 + 1]), equal_target=rng.random() < 0.5,
+                                                                                  bitmask=rng.choice([None, 1, 3, 2**24 + 1])))
         elif k == 19:
             # the same operation object several times: shares constants
             op = cirq.Moment([cirq.X(g) ** 0.125 for g in rng.sample(grid, 3)])
@@ -174,6 +179,9 @@ def rand_program(cirq, cg, sympy, rng, depth=0):
                 continue
             reps = rng.choice([1, 1, 2, 3])
             op = cirq.CircuitOperation(sub.freeze(), repetitions=reps)
+            if cirq.has_unitary(sub) and rng.random() < 0.3:
+                nreps = rng.choice([-1, -2])
+                op = cirq.CircuitOperation(sub.freeze(), repetitions=nreps, repetition_ids=[f'r{j}' for j in range(abs(nreps))] if rng.random() < 0.5 else None)
             if rng.random() < 0.3:
                 op = op.with_tags(cg.CalibrationTag('c'))
         else:
@@ -186,10 +194,18 @@ def rand_program(cirq, cg, sympy, rng, depth=0):
         c = cirq.Circuit()
         for op in ops:
             c.append(op, strategy=rng.choice([cirq.InsertStrategy.NEW, cirq.InsertStrategy.EARLIEST, cirq.InsertStrategy.INLINE]))
+    if rng.random() < 0.3 and len(c) >= 2:
+        # two moments with the same operations and different tags / a tagged moment
+        base = c[0]
+        if not any(cirq.is_measurement(o) for o in base):
+            c = cirq.Circuit([base.with_tags('first'), base.with_tags('second')] + list(c[1:]))
+        else:
+            c = cirq.Circuit([base.with_tags('only')] + list(c[1:]))
     return c, keys
 
 
 DROPPED_SUBCIRCUIT_TAGS: list = []
+NEGATIVE_REPS_WITH_IDS: list = []
 
 
 def f32_close(a, b):
@@ -215,13 +231,15 @@ def ops_equivalent(cirq, sympy, a, b, path=''):
             return f'{path}: tags {a.tags} vs {b.tags}'
     ua, ub = a.untagged, b.untagged
     if isinstance(ua, cirq.ClassicallyControlledOperation) or isinstance(ub, cirq.ClassicallyControlledOperation):
-        if type(ua) != type(ub) or [repr(c) for c in ua.classical_controls] != [repr(c) for c in ub.classical_controls]:
+        if type(ua) != type(ub) or list(ua.classical_controls) != list(ub.classical_controls):
             return f'{path}: classical controls {ua!r} vs {ub!r}'
         return ops_equivalent(cirq, sympy, ua.without_classical_controls(), ub.without_classical_controls(), path + '/cc')
     if isinstance(ua, cirq.CircuitOperation) or isinstance(ub, cirq.CircuitOperation):
         if type(ua) != type(ub):
             return f'{path}: {type(ua).__name__} vs {type(ub).__name__}'
-        if ua.repetitions != ub.repetitions or ua.repetition_ids != ub.repetition_ids or dict(ua.qubit_map) != dict(ub.qubit_map) or dict(ua.measurement_key_map) != dict(ub.measurement_key_map):
+        if ua.repetitions != ub.repetitions and ua.repetitions == -ub.repetitions and ua.repetitions < 0 and ua.repetition_ids == ub.repetition_ids and ua.use_repetition_ids:
+            NEGATIVE_REPS_WITH_IDS.append(repr(ua)[:300])  # reported separately (the message holds a count or ids, not both); keep comparing
+        elif ua.repetitions != ub.repetitions or ua.repetition_ids != ub.repetition_ids or dict(ua.qubit_map) != dict(ub.qubit_map) or dict(ua.measurement_key_map) != dict(ub.measurement_key_map):
             return f'{path}: circuit-operation attributes differ: {ua!r} vs {ub!r}'
         return circuits_equivalent(cirq, sympy, ua.circuit, ub.circuit, path + '/sub')
     ga, gb = ua.gate, ub.gate
@@ -232,7 +250,7 @@ def ops_equivalent(cirq, sympy, a, b, path=''):
     if ga == gb:
         return None
     # parameters: resolve the symbols with generic values on both sides and compare matrices / attributes
-    res = {'a': 0.37, 'b': -1.21}
+    res = {'a': 0.37, 'b': 1.21}
     ra, rb = cirq.resolve_parameters(ua, res), cirq.resolve_parameters(ub, res)
     if cirq.parameter_names(ua) != cirq.parameter_names(ub):
         return f'{path}: symbols {sorted(cirq.parameter_names(ua))} vs {sorted(cirq.parameter_names(ub))}'
@@ -254,6 +272,8 @@ def circuits_equivalent(cirq, sympy, a, b, path=''):
     if len(a) != len(b):
         return f'{path}: {len(a)} moments vs {len(b)}'
     for i, (ma, mb) in enumerate(zip(a, b)):
+        if tuple(getattr(ma, 'tags', ())) != tuple(getattr(mb, 'tags', ())):
+            return f'{path}/moment{i}: moment tags {getattr(ma, "tags", ())} vs {getattr(mb, "tags", ())}'
         oa = sorted(ma.operations, key=lambda o: repr(sorted(o.qubits)))
         ob = sorted(mb.operations, key=lambda o: repr(sorted(o.qubits)))
         if len(oa) != len(ob):
@@ -269,21 +289,42 @@ def check_programs(ctx, cirq, cg, sympy, n):
     rng = ctx.substream('programs')
     ser = cg.CIRCUIT_SERIALIZER
     reqs, meta = [], []
-    for i in range(n):
-        circuit, keys = rand_program(cirq, cg, sympy, rng)
+    gq = cirq.GridQubit(0, 0)
+    corpus = [  # witnesses of the known findings and of repaired defects always run
+        cirq.Circuit(cirq.CircuitOperation(cirq.FrozenCircuit(cirq.X(gq))).with_tags(cg.CalibrationTag('c'))),
+        cirq.Circuit(cirq.CircuitOperation(cirq.FrozenCircuit(cirq.X(gq) ** 0.5), repetitions=-2, repetition_ids=['a', 'b'])),
+        cirq.Circuit(cirq.Moment(cirq.X(gq)).with_tags('first'), cirq.Moment(cirq.X(gq)).with_tags('second')),
+        cirq.Circuit(cirq.depolarize(0.0).on(gq)),
+        cirq.Circuit(cirq.measure(gq, cirq.GridQubit(0, 1), key='m'), cirq.X(gq).with_classical_controls(cirq.BitMaskKeyCondition('m', index=-1, target_value=2**24 + 1, equal_target=True, bitmask=2**24 + 1))),
+    ]
+    for i in range(n + len(corpus)):
+        if i < len(corpus):
+            circuit, keys = corpus[i], []
+        else:
+            circuit, keys = rand_program(cirq, cg, sympy, rng)
         try:
             proto = ser.serialize(circuit)
         except (ValueError, NotImplementedError) as e:
             ctx.count('serialize_rejected', str(e)[:50])
             continue
-        back = ser.deserialize(proto)
+        try:
+            back = ser.deserialize(proto)
+        except (ValueError, TypeError, KeyError) as e:
+            kind = 'depolarize' if 'Depolarizing' in str(e) else type(e).__name__
+            ctx.report_witness(f'program:unreadable:{kind}', f'deserialize cannot read what serialize wrote: {str(e)[:120]}', {'lines': [{'circuit': repr(circuit)}], 'impl_out': [str(e)[:300]], 'spec_out': ['the circuit'],
+                                                                                                                      'theorem_or_correspondence': 'program round trip'})
+            continue
         nontrivial = len(proto.constants) >= 2
         ctx.case(['program', repr(circuit)], nontrivial, sample={'circuit': str(circuit)[:400], 'constants': len(proto.constants)} if nontrivial and len(ctx.samples) < 2 else None)
         ctx.count('check', 'program-roundtrip')
         for op in circuit.all_operations():
             ctx.count('gate', type(op.untagged.gate).__name__ if op.untagged.gate is not None else type(op.untagged).__name__)
         DROPPED_SUBCIRCUIT_TAGS.clear()
+        NEGATIVE_REPS_WITH_IDS.clear()
         diff = circuits_equivalent(cirq, sympy, circuit, back)
+        if NEGATIVE_REPS_WITH_IDS:
+            ctx.report_witness('program:roundtrip:negative-repetitions-with-ids', 'a CircuitOperation with negative repetitions and explicit repetition ids comes back with positive repetitions',
+                               {'lines': [{'circuit': repr(circuit)}], 'impl_out': ['repetitions > 0'], 'spec_out': NEGATIVE_REPS_WITH_IDS[:2], 'theorem_or_correspondence': 'program round trip'})
         if DROPPED_SUBCIRCUIT_TAGS:
             ctx.report_witness('program:roundtrip:circuit-op-tags', 'tags on a CircuitOperation are dropped by serialize / deserialize',
                                {'lines': [{'circuit': repr(circuit)}], 'impl_out': ['()'], 'spec_out': DROPPED_SUBCIRCUIT_TAGS[:3], 'theorem_or_correspondence': 'program round trip'})
